@@ -76,7 +76,20 @@ def _short(x, n=160):
 
 
 # ------------------------------------------------------------------ C07: every shape compiles
-def rule_compiles(ctx: Ctx, rid="C07.SHAPE-COMPILES"):
+def rule_compiles(ctx: Ctx, rid="C07.SHAPE-COMPILES", strict=True):
+    """strict: C07/C14 own 'every shape compiles'.  Other properties only need enough shapes to
+    decide their own rules: shapes that do not compile are skipped there (and counted)."""
+    if not strict:
+        tot = len(irs(ctx))
+        good = sum(1 for o, ir, err in irs(ctx) if ir is not None)
+        ctx.rep.floor("shape x layout instances", tot, 180)
+        if good * 2 < tot:
+            raise AnalysisError(f"only {good} of {tot} shapes compile to the evaluation skeleton: the template rules cannot be "
+                                "decided (see C07 for the reason)")
+        ctx.rep.ok(rid, f"{GEN}:PythonCodeGen.generate", f"{good} of {tot} shape instances compile to the evaluation skeleton and "
+                   "are analysed" + ("" if good == tot else f"; {tot - good} do not compile and are skipped here (reported by C07)"),
+                   nontrivial=False)
+        return
     n = 0
     for o, ir, err in irs(ctx):
         n += 1
@@ -132,7 +145,17 @@ def rule_generator_total(ctx: Ctx, rid="C07.GENERATOR-TOTAL"):
 
 
 # ------------------------------------------------------------------ C02: translation
-def rule_translation(ctx: Ctx, rid="C02.TRANSLATION", select=None):
+def _choices(x, out):
+    """The return_choice leaves of a body IR in order."""
+    if isinstance(x, tuple):
+        if x and x[0] == "return_choice":
+            out.append(x)
+            return
+        for y in x:
+            _choices(y, out)
+
+
+def rule_translation(ctx: Ctx, rid="C02.TRANSLATION", select=None, focus="all"):
     n = 0
     for o, ir, err in irs(ctx):
         if select and not select(o):
@@ -142,9 +165,15 @@ def rule_translation(ctx: Ctx, rid="C02.TRANSLATION", select=None):
         n += 1
         ref = PL.ref_module(o.prog)
         got, exp = _erase_kinds(ir["body"]), _erase_kinds(ref["body"])
+        if focus == "groups":
+            g, e = [], []
+            _choices(got, g)
+            _choices(exp, e)
+            got, exp = tuple(g), tuple(e)
         con = f"{GEN}:PythonCodeGen <- {_label(o)}"
         if got == exp:
-            ctx.rep.ok(rid, con, "generated control flow and predicates equal the reference translation")
+            ctx.rep.ok(rid, con, "generated control flow and predicates equal the reference translation" if focus == "all" else
+                       "each return statement's population and weights are the declared groups, in order, position-aligned")
         else:
             d = _first_diff(got, exp)
             ctx.rep.bad(rid, con, f"generated code differs from the reference reading at {d[0]}: generated {_short(d[1])}, "
@@ -257,7 +286,7 @@ def rule_literal_terms(ctx: Ctx, rid="C05.LITERAL-VALUES"):
                         text=f"{o.prog.label}|{_short(d[0], 60)}|{_short(d[1], 60)}", facts={"generated": o.text})
 
 
-def rule_coercions(ctx: Ctx, rid="C05.NO-LOSSY-UNION"):
+def rule_coercions(ctx: Ctx, rid="C05.NO-LOSSY-UNION", fields=None):
     seen = {}
     for o in ctx.outcomes():
         for what, where, fsite, srcsym in o.interp.pyd_events:
@@ -273,6 +302,8 @@ def rule_coercions(ctx: Ctx, rid="C05.NO-LOSSY-UNION"):
                                                        "PositiveInt", "PositiveFloat", "bool", "StrictInt", "StrictFloat", "StrictStr")]
                 if len(scalar) < 2:
                     continue
+                if fields is not None and s.target.id not in fields:
+                    continue
                 n += 1
                 where = f"{st.rel}:{cname}.{s.target.id}"
                 hits = [(w, v) for (wh, w), v in seen.items() if wh == where]
@@ -286,7 +317,17 @@ def rule_coercions(ctx: Ctx, rid="C05.NO-LOSSY-UNION"):
                 else:
                     why = "; ".join(f"{w} allowed: {ALLOWED_COERCIONS[(s.target.id, w)]}" for w, _ in hits) or "no coercion observed"
                     ctx.rep.ok(rid, con, f"Union[{', '.join(members)}] keeps each literal's own type ({why})", site=st.site(s))
-    ctx.rep.floor("model fields with a multi-scalar Union", n, 3)
+    # validators that rewrite values
+    for o in ctx.outcomes():
+        for what, where, fsite, srcsym in o.interp.pyd_events:
+            if what == "validator-rewrite" and (fields is None or any(where.endswith("." + f) or f in where.split(".")[-1].split("/") for f in fields)):
+                k = ("validator", where)
+                if k not in seen:
+                    seen[k] = 1
+                    ctx.rep.bad(rid, f"data_structures/syntax_tree.py:{where.split(':')[-1]}[validator {srcsym}]",
+                                f"a pydantic validator ({srcsym}) returns something other than the value it was given: the literal "
+                                "stored in the AST can differ from the one written", site=fsite, text=f"validator {srcsym} on {where}")
+    ctx.rep.floor("model fields with a multi-scalar Union", n, 3 if fields is None else 1)
 
 
 def rule_renderers(ctx: Ctx, rid="C05.TERM-RENDER", kinds=("str", "int", "float", "ident"), taint_only=False):
@@ -443,12 +484,61 @@ def rule_string_surface(ctx: Ctx, rid="C13.TAINT-COVERAGE"):
 
 
 # ------------------------------------------------------------------ C09 / C12 key and signature
-def rule_key(ctx: Ctx, rid="C12.KEY-DESCRIPTOR"):
+def _key_names(pieces):
+    out = []
+    for p in pieces or []:
+        if p[0] == "str":
+            out.append(p[1])
+        elif p[0] == "conditional":
+            out += _key_names(p[2])
+    return out
+
+
+def rule_key(ctx: Ctx, rid="C12.KEY-DESCRIPTOR", mode="exact"):
+    """mode: exact (C12: the published descriptor) | names (C09: depends on exactly salt+splitters)
+    | position (C10: no condition field / label / weight in the key) | none-iff (C01, C15: the key is
+    None exactly when there are no splitters) | str-only (C15: every value enters through str())."""
     for o, ir, err in irs(ctx):
         if ir is None:
             continue
         ref = PL.ref_module(o.prog)
         con = f"{GEN}:PythonCodeGen.generate_key_definition <- {_label(o)}"
+        got, exp = ir["key"], ref["key"]
+        if mode != "exact":
+            problem = None
+            if (got is None) != (exp is None):
+                problem = ("the key is None although splitters are declared: assignment is a random draw" if got is None else
+                           "a key is computed although no splitter is declared")
+            elif got is not None and mode in ("names", "position", "str-only"):
+                names = _key_names(got)
+                split = {p[1] for p in exp if p[0] == "str"}
+                extra = [n for n in names if n not in split]
+                unknown = [p for p in got if p[0] in ("expr", "pyconst")]
+                if extra:
+                    problem = f"the key depends on {extra}, which are not splitter fields"
+                elif unknown and mode != "position":
+                    problem = f"part of the key is not understood as str() of a splitter or a constant: {unknown[0][1][:80]}"
+                elif mode in ("names", "str-only") and set(names) != split:
+                    problem = f"splitter(s) {sorted(split - set(names))} do not enter the key"
+                elif mode == "names":
+                    salt_exp = [p for p in exp if p[0] == "const" and p[1] != ""]
+                    salt_got = [p for p in got if p[0] == "const" and isinstance(p[1], tuple)]
+                    other_const = [p for p in got if p[0] == "const" and isinstance(p[1], str) and p[1] not in ("",)]
+                    if salt_exp and not salt_got:
+                        problem = "the declared salt does not enter the key"
+                    elif other_const and o.prog.name.name in "".join(p[1] for p in other_const):
+                        problem = "the experiment's name is part of the key"
+                if mode == "str-only" and any(p[0] == "conditional" for p in got):
+                    problem = f"a splitter value enters the key only conditionally ({[p[1] for p in got if p[0] == 'conditional'][0]})"
+            if problem:
+                ctx.rep.bad(rid, con, problem, text=f"{o.prog.label}|{problem[:90]}",
+                            facts={"generated": o.text, "key_expr": norm(ir["key_expr"])})
+            else:
+                ctx.rep.ok(rid, con, {"names": "key depends on exactly the salt and the splitter fields",
+                                      "position": "key mentions no condition field, label or weight",
+                                      "none-iff": "key is None exactly when no splitter is declared",
+                                      "str-only": "every splitter enters the key through str() unconditionally"}[mode])
+            continue
         if ir["key"] == ref["key"]:
             desc = "None (no splitters: random assignment)" if ref["key"] is None else \
                 "salt constant + str() of each splitter in alphabetical order, no separator"
